@@ -18,7 +18,7 @@ CHECKS = {
     technique='symbolic execution of the table source + univariate nonlinear real arithmetic queries in z3',
     design='2/C09'),
  'C13': dict(
-    text='Bounded concolic + SMT checking of the real classes: the world/orbit/tides objects are driven in the repository interpreter under a provenance tracer (setter inputs are symbols, leaf numeric functions are uninterpreted, inline arithmetic is interpreted); for every history of set_state calls up to the stated length and every exposed quantity, z3 decides validity of T_history = T_fresh-world (and = the functional API term) over uninterpreted functions and real arithmetic, i.e. for all input values. Histories are enumerated up to the bound; a sat answer is confirmed by the concrete values of the same real run.',
+    text='Bounded concolic + SMT checking of the real classes: the world/orbit/tides objects are driven in the repository interpreter under a provenance tracer (setter inputs are symbols, leaf numeric functions are uninterpreted, inline arithmetic is interpreted); for every history of set_state calls up to the stated length and every exposed quantity, z3 decides validity of T_history = T_fresh-world (and = the functional API term) over uninterpreted functions and real arithmetic, i.e. for all input values. Histories are enumerated up to the bound; a sat answer is confirmed by the concrete values of the same real run. Worlds: CPL/CTL (obliquity, forced synchronous), layered (also synchronous), dual-body systems with a tidally active host; every setter route of world, orbit, layer and tides.',
     note='Trusted: z3, the tracer (replay/c13_tracer.py) which wraps leaf functions at their import sites; control flow that depends on input VALUES is followed for one concrete value per symbol (concolic). Lost provenance degrades to concrete comparison and is reported as not covered.',
     technique='concolic provenance execution of the real classes + z3 EUF/real-arithmetic validity queries per history and quantity',
     design='2/C13'),
@@ -28,12 +28,12 @@ CHECKS = {
     technique='symbolic execution + symbolic differentiation of the encoding + z3 nonlinear real arithmetic (polynomial identities modulo circle constraints)',
     design='2/C14'),
  'C10': dict(
-    text='Bounded SMT validity checking: calculate_terms/collapse_modes executed symbolically with the real key structure of the tables and abstract non-negative entries (identities hold for any table values); z3 decides per-entry and collapsed heating == M(n dUdM - spin dUdO), per-entry sign, vanishing at e=0 for synchronous zero-obliquity, the (21/2) limit with the real tables, grouped == ungrouped totals (second encoding with grouping disabled by AST transform), arrays == scalars, and the Love-number call site.',
+    text='Bounded SMT validity checking: calculate_terms/collapse_modes executed symbolically with the real key structure of the tables and abstract non-negative entries (identities hold for any table values); z3 decides per-entry and collapsed heating == M(n dUdM - spin dUdO), per-entry sign, vanishing at e=0 for synchronous zero-obliquity, the (21/2) limit with the real tables, grouped == ungrouped totals (second encoding with grouping disabled by AST transform), arrays == scalars, and the Love-number call site. The public functions of toolbox/quick_tides.py (single, dual, dict front ends; 99 configurations) are additionally run under a provenance tracer and z3 decides that every returned quantity has the term of the documented pipeline over uninterpreted leaf functions (call-site argument order).',
     note='Trusted: z3, symx executor, AST transform that disables grouping. Rheology values abstracted as a function of frequency. Replays go through the public quick_tidal_dissipation API at generic parameters.',
     technique='symbolic execution with table abstraction + z3 nonlinear real arithmetic with ite (sign/abs) and uninterpreted rheology function',
     design='2/C10'),
  'C11': dict(
-    text='Bounded SMT validity checking: the single/dual dissipation rate functions, the Kepler conversion and the result-assembly slices of the quick_tides functions are executed symbolically; z3 decides the energy balance and (zero obliquity) angular-momentum balance under n^2 a^3 = G(m1+m2), equality of combined and separate functions and array==scalar; the e=0 clause is a QF_FP Float64 query on the same source executed with IEEE semantics.',
+    text='Bounded SMT validity checking: the single/dual dissipation rate functions, the Kepler conversion and the result-assembly slices of the quick_tides functions are executed symbolically; z3 decides the energy balance and (zero obliquity) angular-momentum balance under n^2 a^3 = G(m1+m2), equality of combined and separate functions and array==scalar; the e=0 clause is a QF_FP Float64 query on the same source executed with IEEE semantics. The whole quick_tides functions are additionally covered by the C10 provenance obligations (derivative call sites receive the quantities of the right body).',
     note='Trusted: z3 (NRA and QF_FP), symx executor, sqrt/cube-root atoms with their defining axioms. FP clause: e-independent arithmetic abstracted to fresh values bounded by 2^400.',
     technique='symbolic execution + z3 nonlinear real arithmetic; QF_FP (Float64) for the e=0 special value',
     design='2/C11'),
@@ -58,37 +58,37 @@ CHECKS = {
     technique='symbolic execution (Python + transliterated Cython + extracted methods) + z3 nonlinear real arithmetic; one inductive step from an arbitrary state',
     design='2/C17'),
  'C20': dict(
-    text='Bounded SMT validity checking of the transliterated complex.pyx / special_x.pyx: principal-value identities of cf_hypot and cf_csqrt over the reals per explored path; C99 G.6.4.2 special values of cf_csqrt as QF_FP Float64 queries on the same source executed with IEEE values (one query per clause and path); cf_cipow and the cf_cpow integer fast path executed for every concrete exponent on a formal indeterminate; the double-factorial literals against n!! as solver queries over the table encoding; interpreted sqrt_neg against the principal root.',
+    text='Bounded SMT validity checking of the transliterated complex.pyx / special_x.pyx: principal-value identities of cf_hypot and cf_csqrt over the reals per explored path; C99 G.6.4.2 special values of cf_csqrt as QF_FP Float64 queries on the same source executed with IEEE values (one query per clause and path); cf_cipow and the cf_cpow integer fast path executed for every concrete exponent on a formal indeterminate; the double-factorial literals against n!! as solver queries over the table encoding; interpreted sqrt_neg against the principal root. cf_cabs, cf_carg, cf_cexp (ordinary and scaled branch, frexp/ldexp exact), cf_clog (all rescaling branches) and the general branch of cf_cpow are checked structurally over uninterpreted libm functions; the module constants are read from the source and have their own obligations.',
     note='Trusted: z3 (NRA and QF_FP), transliterator, libm sqrt modelled as exact real sqrt in the real-arithmetic part. Few-ulp accuracy of finite results, cexp/clog values and the overflow-scaling branch are not decided (stated).',
     technique='Cython source transliteration + symbolic execution; z3 nonlinear real arithmetic and QF_FP Float64 (Annex G clauses)',
     design='2/C20'),
  'C05': dict(
-    text='Bounded SMT validity checking: the compressible solid diffeq methods of odes.pyx (transliterated) and the real sensitivity kernels are executed on symbolic complex states; z3 decides the exact local energy identity d/dr{r^2 Im[conj(y1)y2 + l(l+1)conj(y3)y4 + conj(y5)y6/(4piG)]} = H_mu Im mu (+ H_K Im K), the sum-of-squares form of H_mu (hence Im k <= 0), exactness of the finite-difference stencils, the surface evaluation of the flux through find_love_cf and the prefactor of calc_radial_tidal_heating.',
+    text='Bounded SMT validity checking: the compressible solid diffeq methods of odes.pyx (transliterated) and the real sensitivity kernels are executed on symbolic complex states; z3 decides the exact local energy identity d/dr{r^2 Im[conj(y1)y2 + l(l+1)conj(y3)y4 + conj(y5)y6/(4piG)]} = H_mu Im mu (+ H_K Im K), the sum-of-squares form of H_mu (hence Im k <= 0), exactness of the finite-difference stencils, the surface evaluation of the flux through find_love_cf and the prefactor of calc_radial_tidal_heating. Both kernels\' finite-difference stencils and the heating prefactor for every degree of the tier, with real-function replays.',
     note='Trusted: z3, symx executor, transliterator. The global statement follows from the local identity by integration (fundamental theorem of calculus) with the flux vanishing at the centre for regular solutions; quadrature error and integrator accuracy are outside.',
     technique='symbolic execution of ODE right-hand sides and kernels + z3 nonlinear real arithmetic (pointwise identities)',
     design='2/C05'),
  'C02': dict(
-    text='Bounded SMT validity checking of the transliterated boundary/interface kernels: for arbitrary per-solution vectors z3 decides that the collapsed surface values meet exactly the requested condition of each solution type (zgesv replaced by its contract) without touching other slots, and that one interface step (vectors mapped upward, constants mapped downward, glue sliced from cf_radial_solver) keeps y1,y2,y5,y6 continuous where defined, y4=0 on the solid side and y7 through static liquids, for all 16 layer orderings; declared stack extents are enforced.',
+    text='Bounded SMT validity checking of the transliterated boundary/interface kernels: for arbitrary per-solution vectors z3 decides that the collapsed surface values meet exactly the requested condition of each solution type (zgesv replaced by its contract) without touching other slots, and that one interface step (vectors mapped upward, constants mapped downward, glue sliced from cf_radial_solver) keeps y1,y2,y5,y6 continuous where defined, y4=0 on the solid side and y7 through static liquids, for all 16 layer orderings; declared stack extents are enforced. The collapse loop and the Love-number extraction of cf_radial_solver are sliced from the current source and executed over symbolic arrays with recording stubs: every kernel call site receives the quantities of the right layer/side/solution type and the Love read-back matches what the collapse wrote.',
     note='Trusted: z3, transliterator, zgesv contract stub (A x = b, info=0). One inductive step from an arbitrary state stands for any layer stack; the integrator preserving solution-hood inside a layer is outside.',
     technique='Cython source transliteration + symbolic execution (formal-indeterminate mode) + z3 identities; extent-checked stack arrays',
     design='2/C02'),
  'C03': dict(
-    text='Bounded SMT validity checking: the unit scaling of nondimensional.pyx is shown to be a symmetry of every link (eight ODE right-hand sides, boundary vectors sliced from cf_radial_solver, interface maps, Love extraction), redim(nondim(x))=x, an exactly rescaled planet has identical non-dimensional inputs, and reciprocity: dB/dr=0 for the bilinear form on every ODE class and B(R)=0 with the code\'s tidal/loading boundary vectors gives k_load = k_tidal - h_tidal.',
+    text='Bounded SMT validity checking: the unit scaling of nondimensional.pyx is shown to be a symmetry of every link (eight ODE right-hand sides, boundary vectors sliced from cf_radial_solver, interface maps, Love extraction), redim(nondim(x))=x, an exactly rescaled planet has identical non-dimensional inputs, and reciprocity: dB/dr=0 for the bilinear form on every ODE class and B(R)=0 with the code\'s tidal/loading boundary vectors gives k_load = k_tidal - h_tidal. Real/imag packing of all eight ODE classes is an obligation (justifies the formal-indeterminate mode); multi-slice / multi-type indexing of the unit-conversion loops; C02 surface obligations are imported.',
     note='Trusted: z3, transliterator, formal-indeterminate mode (justified by a syntactic field-operations-only test of each kernel). Integrator convergence, B=0 at the centre and B across static-liquid interfaces are outside.',
     technique='Cython source transliteration + symbolic execution (formal indeterminates) + z3 rational-function identities; inductive invariant for reciprocity',
     design='2/C03'),
  'C04': dict(
-    text='Bounded SMT validity checking: all nine starting-condition functions are transliterated and executed for a homogeneous sphere; z=x j_{l+1}/j_l and phi_l, phi_{l+1} are atoms with their derivation rules, csqrt an atom with S^2=argument; the r-derivative of each starting vector is obtained by differentiating the encoding and z3 decides that ds/dr - A s lies in span{s_j, s_last} for the matching diffeq (flow-invariance of the span = independence of the start radius); truncated phi/psi/z series equal the exact series as polynomial identities; the driver dispatch table is executed for all flag combinations.',
+    text='Bounded SMT validity checking: all nine starting-condition functions are transliterated and executed for a homogeneous sphere; z=x j_{l+1}/j_l and phi_l, phi_{l+1} are atoms with their derivation rules, csqrt an atom with S^2=argument; the r-derivative of each starting vector is obtained by differentiating the encoding and z3 decides that ds/dr - A s lies in span{s_j, s_last} for the matching diffeq (flow-invariance of the span = independence of the start radius); truncated phi/psi/z series equal the exact series as polynomial identities; the driver dispatch table is executed for all flag combinations. The Bessel branch of cf_z_calc is checked structurally; the two Takeuchi solid families are also checked with the recorded y6/y5 index defect factored out, so that other changes to them are not masked by the known finding.',
     note='Trusted: z3, transliterator, differentiation of the encoding, the Bessel recurrences behind the atom rules. Truncation error of the series beyond their order, scipy spherical_jn and the integrator are outside.',
     technique='Cython source transliteration + symbolic execution with special-function atoms and derivation rules + z3 (minors of the span condition)',
     design='2/C04'),
  'C01': dict(
-    text='Bounded SMT validity checking of every algebraic link of the shooting pipeline for a uniform incompressible solid sphere: the polynomial regular solutions satisfy the real SolidStaticIncompressible.diffeq; pushed through the real boundary-vector construction, cf_apply_surface_bc (zgesv contract), cf_collapse_layer_solution and find_love_cf they give exactly the Kelvin k, h, l (rational identities in R, rho, mu, G); dynamic -> static at zero frequency and compressible -> incompressible as K -> infinity are identities/limits of the right-hand sides; the starting families span regular solutions (C04 obligations).',
+    text='Bounded SMT validity checking of every algebraic link of the shooting pipeline for a uniform incompressible solid sphere: the polynomial regular solutions satisfy the real SolidStaticIncompressible.diffeq; pushed through the real boundary-vector construction, cf_apply_surface_bc (zgesv contract), cf_collapse_layer_solution and find_love_cf they give exactly the Kelvin k, h, l (rational identities in R, rho, mu, G); dynamic -> static at zero frequency and compressible -> incompressible as K -> infinity are identities/limits of the right-hand sides; the starting families span regular solutions (C04 obligations). Real/imag packing of the solid ODE classes and the collapse-loop / Love-extraction call sites (C02 obligations) are part of the pipeline.',
     note='Trusted: z3, transliterator, zgesv contract stub; the sympy-built polynomial basis is untrusted (re-checked by the solver). Convergence of the CyRK integrators within tolerance is NOT decided (no solver-based handle on numerical integration); stated as outside.',
     technique='symbolic execution of the transliterated pipeline + z3 rational-function identities against the closed form',
     design='2/C01'),
  'C06': dict(
-    text='Bounded symbolic path exploration of the control skeleton of cf_radial_solver / radial_solver (scale/restore, allocate/free with points-to for the nested storage, raise/return, try/finally; nondimensionalize and raise_on_fail as shared z3 Booleans, loops 0/1): per exit site z3 decides that no feasible path leaves the arrays scaled or an allocation live, and that failures raise under raise_on_fail; extents of the surface kernel and redim(nondim(x))=x included; every bad exit is replayed on the real compiled solver in a subprocess (exception, arrays before/after, exit status), plus fixed dynamic runs for liquid surface layers, validation and step-budget failures.',
+    text='Bounded symbolic path exploration of the control skeleton of cf_radial_solver / radial_solver (scale/restore, allocate/free with points-to for the nested storage, raise/return, try/finally; nondimensionalize and raise_on_fail as shared z3 Booleans, loops 0/1): per exit site z3 decides that no feasible path leaves the arrays scaled or an allocation live, and that failures raise under raise_on_fail; extents of the surface kernel and redim(nondim(x))=x included; every bad exit is replayed on the real compiled solver in a subprocess (exception, arrays before/after, exit status), plus fixed dynamic runs for liquid surface layers, validation and step-budget failures. Further obligations: a failure site passed with raise_on_fail off leaves error set (success = False); the wrapper\'s guards force all array and tuple lengths equal (sizes as z3 Ints).',
     note='Trusted: z3, transliterator, skeleton executor (opaque conditions independent: over-approximation). CyRK internals, hangs and NaN material values inside the integrator are outside.',
     technique='symbolic execution of the control skeleton (path conditions in z3) + replay on the real build',
     design='2/C06'),
